@@ -353,6 +353,7 @@ pub fn key_crosscheck(job: &Job, slices: &Slices, d: usize) -> Result<(), String
 pub fn run(ctx: &Ctx) -> Coverage {
     let mut items = corpus::all_items();
     items.extend(corpus::special_items());
+    items.extend(corpus::option_items());
     items.extend(crate::gen::lark_family(ctx.tier.pick(3, 4)));
     let kinds: Vec<VKind> = if ctx.quick() {
         vec![VKind::Bytes, VKind::Multi2, VKind::Multi2Canon]
